@@ -267,6 +267,14 @@ def trace_validate(ck, cases, shards=12, label='traces', corrupt_selftest=True):
     for e in errs[:3]:
         ck.violation({'kind': 'trace', 'inputs': {'recording': e}, 'expected': 'a parse that can be recorded', 'observed': e['error']},
                      key='recerr' + e['error'][:30])
+    return validate_records(ck, recs, shards=shards, label=label, corrupt_selftest=corrupt_selftest)
+
+
+def validate_records(ck, recs, shards=12, label='traces', corrupt_selftest=True, describe=None):
+    """Validate trace records (PegTrace format) with TLC; a rejected trace is a violation."""
+    import concurrent.futures as cf
+    import copy
+    import random as _r
     if not recs:
         return 0
     # binding self-test: corrupt one logged field of some traces; each corrupted copy must be REJECTED
@@ -325,8 +333,14 @@ def trace_validate(ck, cases, shards=12, label='traces', corrupt_selftest=True):
             if i in acc:
                 nacc += 1
                 continue
-            ebnf = to_ebnf(r['g'])
-            ck.violation({'kind': 'trace', 'inputs': {'grammar': ebnf, 'text': ''.join(r['inp']), 'start': r['start']},
+            try:
+                ebnf = to_ebnf(r['g'])
+            except Exception:  # noqa: BLE001  (projected real grammars carry oracle leaves that have no EBNF rendering)
+                ebnf = json.dumps(r['g'], sort_keys=True)[:3000]
+            inputs = {'grammar': ebnf, 'text': ''.join(r['inp']), 'start': r['start']}
+            if r.get('src'):
+                inputs['recorded_in'] = r['src']
+            ck.violation({'kind': 'trace', 'inputs': inputs,
                           'expected': 'the recorded execution is a behaviour of PegMachine',
                           'observed': {'events_matched': max(0, reached - 1), 'of': len(r['ev']),
                                        'around_rejection': r['ev'][max(0, reached - 3):reached + 1]},
